@@ -26,6 +26,23 @@ Fixpoint expand (n : nat) (i : N) (bs : list (N * N * N * N)) : list node :=
 Definition G (root cnt mx nb : N) (bs : list (N * N * N * N)) : sdigest :=
   SD root cnt mx (expand (N.to_nat nb) 0%N bs).
 
+(* long LWW strings are printed as a pattern: byte i = (seed + 31 i + 7 (i >> 8)) mod 256,
+   with the listed (offset, byte) overwrites *)
+Fixpoint lv_aux (fuel : nat) (i seed : N) : list N :=
+  match fuel with
+  | O => []
+  | S f => N.land (seed + 31 * i + 7 * N.shiftr i 8)%N 255 :: lv_aux f (i + 1)%N seed
+  end.
+Fixpoint lv_set (l : list N) (i off b : N) : list N :=
+  match l with
+  | [] => []
+  | x :: r => (if (i =? off)%N then b else x) :: lv_set r (i + 1)%N off b
+  end.
+Definition lv (len seed : N) (patches : list (N * N)) : list N :=
+  fold_left (λ l p, lv_set l 0%N p.1 p.2) patches (lv_aux (N.to_nat len) 0%N seed).
+Definition VB (b : list N) (t r : N) (tomb : bool) : rvalue :=
+  RV (CLww (Lww (Some b) (Stamp t r) tomb)) None None (Stamp t r) None.
+
 (* a plain LWW register stamped like its wrapper *)
 Definition VL (v : option string) (t r : N) (tomb : bool) : rvalue :=
   V (cl (L v t r tomb)) None None t r None.
